@@ -50,8 +50,10 @@ func (v *StructSchema) Merge(other *StructSchema, others ...*StructSchema) *Stru
 // The new schema shares references to the transforms, tests and inner schema.
 func (v *StructSchema) cloneShallow() *StructSchema {
 	new := &StructSchema{
-		postTransforms: v.postTransforms,
-		tests:          v.tests,
+		// cap the slices at their length so that appending to the clone (or to v)
+		// allocates instead of writing into the backing array both share
+		postTransforms: v.postTransforms[:len(v.postTransforms):len(v.postTransforms)],
+		tests:          v.tests[:len(v.tests):len(v.tests)],
 		required:       v.required,
 		schema:         v.schema,
 	}
